@@ -135,7 +135,14 @@ def one(ctx, data, meta=None):
                 except Exception as e:
                     out = {attr: ('err', 'constructor: ' + type(e).__name__) for attr in ATTRS}
             return out
-        v0 = values(None); v1 = values(os.path.join(td, 'img', 'x'))
+        v0 = values(None)
+        # the folder may already hold files named like the images, of the same size, from another document
+        folder = os.path.join(td, 'img', 'x')
+        if v0['images'][0] == 'v' and v0['images'][1] and len(data) % 2 == 0:
+            os.makedirs(folder)
+            for n_, b_ in v0['images'][1].items(): open(os.path.join(folder, n_), 'wb').write(bytes((x ^ 0x33) for x in b_))
+            ctx.count('image folder already holds same-name same-size files')
+        v1 = values(folder)
         for attr in ATTRS:
             if v0[attr] != v1[attr]:
                 ctx.fail('passing an image folder changes a returned value', case_payload(data, attribute=attr),
